@@ -133,7 +133,10 @@ class Gen:
             if hs and fs:
                 self.emit(f"open h{rng.choice(hs)} f{rng.choice(fs)}")
         elif r < 42:                                                   # bind
-            hs = self.live("tcp") + self.live("pipe") + self.live("udp")
+            # only handles whose socket (if any) libuv created itself and has not bound/connected yet: the return
+            # code of bind(2) on adopted / accepted / connected sockets depends on kernel state the model does not track
+            hs = [i for i in self.live("tcp") + self.live("pipe") + self.live("udp")
+                  if not self.hs[i]["readable"] and not self.hs[i]["connected"] and not self.hs[i]["bound"]]
             if hs:
                 h = rng.choice(hs); k = self.hs[h]["kind"]
                 var = rng.choice(["ok", "ok", "bad", "same"])
@@ -150,7 +153,7 @@ class Gen:
                     var = "bad"
                 self.emit(*self.maybe_fail([("socket", 1, [24, 23])]), f"bind h{h} {var}")
         elif r < 48:
-            hs = [i for i in self.live("tcp") + self.live("pipe") if not self.hs[i]["connected"]]
+            hs = [i for i in self.live("tcp") + self.live("pipe") if not self.hs[i]["connected"] and not self.hs[i]["readable"]]
             if hs:
                 h = rng.choice(hs)
                 self.emit(*self.maybe_fail([("socket", 1, [24])]), f"listen h{h}")
@@ -158,7 +161,7 @@ class Gen:
                     self.emit(f"policy h{h} " + rng.choice(["accept", "accept", "hold"]))
         elif r < 60:                                                   # connect (+ run: one readiness source at a time)
             k = rng.choice(["tcp", "pipe"])
-            cl = [i for i in self.live(k) if not self.hs[i]["connected"] and not self.hs[i]["listening"]]
+            cl = [i for i in self.live(k) if not self.hs[i]["connected"] and not self.hs[i]["listening"] and not self.hs[i]["readable"]]
             sv = [i for i in self.live(k) if self.hs[i]["listening"]]
             if not cl:
                 self.emit(f"{k}_init " + ("unspec" if k == "tcp" else "0"))
@@ -442,7 +445,7 @@ def run(ctx):
         for p in sorted(cdir.glob("*.txt")):
             progs.append(p.read_text())
     ncorpus = len(progs)
-    n = ctx.scale(60, 900)
+    n = ctx.scale(150, 1500)
     maxops = ctx.scale(28, 45)
     seeds = [ctx.rng.fork() for _ in range(n)]
     biases = [None, None, "spawn", "accept", "ipc", "stdio", "fs", "bind"]
